@@ -132,7 +132,8 @@ func vfC46GenSel(rt *rapid.T) vfC46SelPlan {
 		for j := rapid.SampledFrom([]int{0, 1, 1, 2, 3}).Draw(rt, "nhash"); j > 0; j-- {
 			hp := vfC46HP{Kind: rapid.SampledFrom([]int{0, 0, 0, 1}).Draw(rt, "hpk"), Terminal: rapid.IntRange(0, 3).Draw(rt, "term") == 0}
 			if hp.Kind == 0 {
-				hp.Header = rapid.SampledFrom([]string{"x-a", "x-b", "content-type", "x-missing", "x-c-bin"}).Draw(rt, "hph")
+				// header names are case-insensitive: the RDS resource may spell them with capitals, request metadata keys are lower case
+				hp.Header = rapid.SampledFrom([]string{"x-a", "x-b", "content-type", "x-missing", "x-c-bin", "X-A", "X-b", "Content-Type", "X-Missing"}).Draw(rt, "hph")
 				if rapid.IntRange(0, 2).Draw(rt, "hpre") == 0 {
 					hp.Regex = rapid.SampledFrom([]string{"a", "[ab]+", ",", "^"}).Draw(rt, "hpr")
 					hp.Subst = rapid.SampledFrom([]string{"", "X", "$0$0"}).Draw(rt, "hps")
@@ -343,10 +344,11 @@ func vfC46HashDetermined(r vfC46Route, md, extra metadata.MD) bool {
 		if hp.Kind == 1 {
 			return true
 		}
-		if strings.HasSuffix(hp.Header, "-bin") {
+		name := strings.ToLower(hp.Header)
+		if strings.HasSuffix(name, "-bin") {
 			continue
 		}
-		if len(extra[hp.Header]) > 0 || len(md[hp.Header]) > 0 {
+		if len(extra[name]) > 0 || len(md[name]) > 0 {
 			return true
 		}
 	}
@@ -379,7 +381,7 @@ func vfC46RunSel(_ *testing.T, p vfC46SelPlan) vk.Result {
 				named = named || h.Name == k
 			}
 			for _, hp := range r.Hash {
-				named = named || hp.Header == k
+				named = named || strings.ToLower(hp.Header) == k
 			}
 		}
 		if named {
